@@ -60,7 +60,7 @@ Proof.
   - rewrite reify_args_eq. destruct (reify_args en pc items); reflexivity.
   - rewrite reify_args_eq. destruct (reify_args en pc items); reflexivity.
   - destruct fam; reflexivity.
-  - destruct tk; reflexivity.
+  - destruct tk; try reflexivity; unfold the_node; destruct (String.eqb _ "perFrameHook"); reflexivity.
   - unfold the_name_node. destruct (assoc_str (nm en tn) ASSIGN_KNOWN_PROPERTIES); reflexivity.
 Qed.
 
@@ -79,7 +79,7 @@ Proof.
   - match goal with |- context [let '(a, b) := ?X in _] => destruct X end; reflexivity.
   - match goal with |- context [let '(a, b) := ?X in _] => destruct X end. destruct items; reflexivity.
   - destruct f; reflexivity.
-  - destruct k; reflexivity.
+  - destruct k; try reflexivity; unfold the_node; destruct (String.eqb _ "perFrameHook"); reflexivity.
   - unfold the_name_node. destruct (assoc_str (nm en n) ASSIGN_KNOWN_PROPERTIES); reflexivity.
 Qed.
 
@@ -175,8 +175,8 @@ Proof.
   - (* menu item properties *) intros pid it mn IHi IHm [Hi Hm] pc ind. cbn [reify_e to_js].
     erewrite accessor_js; [|apply menuitem_js; [apply (objref_js fm en _ mn IHm Hm)|apply (objref_js fm en pc it IHi Hi)]|reflexivity].
     cbn [pp_js js_leaf]. repeat rewrite sapp_assoc. reflexivity.
-  - (* the <special / date-time / system property> *) intros k i _ pc ind. cbn [reify_e to_js].
-    destruct k; cbn [the_node the_table]; try reflexivity.
+  - (* the <special / date-time / system property> *) intros k i Hok pc ind. cbn [reify_e to_js].
+    destruct k; cbn [the_node the_table]; try reflexivity; try (destruct Hok; fail).
     { cbn [gen_js js_leaf pp_js map]. unfold join. cbn [concat_all map]. repeat rewrite sapp_assoc. rewrite ?append_nil_r0. reflexivity. }
     pose proof (sys_owner (nth i (map fst SYSTEM_PROPERTIES) "")) as Ho. unfold sys_owner_ok in Ho.
     apply andb_true_iff in Ho. destruct Ho as [Ho _]. apply andb_true_iff in Ho. destruct Ho as [Hme Htell].
@@ -279,6 +279,7 @@ Proof.
       * destruct fm; reflexivity.
     + reflexivity.
     + cbn [read_js]. destruct (String.eqb _ "_global"); reflexivity.
+    + reflexivity.
   - intros n. cbn [to_js name_e]. destruct (assoc_str (nm en n) ASSIGN_KNOWN_PROPERTIES) as [o|]; [cbn [read_js]; destruct (String.eqb o "_global"); reflexivity|].
     unfold js_prop. cbn [read_js].
     destruct (assoc_str (nm en n) VARIABLE_KNOWN_PROPERTIES) as [o|] eqn:E.
